@@ -1,6 +1,6 @@
 (* Judge09.v — evaluation of harness cases for C09 (written Spec files read back equal, in both encodings). *)
 From Coq Require Import String Ascii List Bool Arith NArith ZArith.
-From CDI Require Import Base SpecModel Doc Decode Codec.
+From CDI Require Import Base SpecModel Doc Decode Codec JsonString.
 Import ListNotations.
 Open Scope string_scope.
 
@@ -17,28 +17,8 @@ Definition spec_strings (s : spec) : list string :=
   (s_version s :: s_kind s :: annots_strings (s_annot s) ++ edits_strings (s_edits s) ++
    flat_map (fun d => d_name d :: annots_strings (d_annot d) ++ edits_strings (d_edits d)) (s_devices s))%list.
 
-(* the classes of the known findings, on UTF-8 bytes *)
-Definition b (c : ascii) : N := N_of_ascii c.
-Fixpoint has_c1 (s : string) : bool :=      (* U+007F..U+009F except U+0085, U+FFFE, U+FFFF *)
-  match s with
-  | EmptyString => false
-  | String c r =>
-      N.eqb (b c) 127 ||
-      match r with
-      | String d r2 =>
-          (N.eqb (b c) 194 && N.leb 128 (b d) && N.leb (b d) 159 && negb (N.eqb (b d) 133)) ||
-          match r2 with
-          | String e _ => N.eqb (b c) 239 && N.eqb (b d) 191 && (N.eqb (b e) 190 || N.eqb (b e) 191)
-          | EmptyString => false
-          end
-      | EmptyString => false
-      end || has_c1 r
-  end.
-Fixpoint has_nel (s : string) : bool :=     (* U+0085 = C2 85 *)
-  match s with
-  | EmptyString => false
-  | String c r => match r with String d _ => N.eqb (b c) 194 && N.eqb (b d) 133 | EmptyString => false end || has_nel r
-  end.
+(* the classes of the known findings, on UTF-8 bytes: has_c1 (C09/json-c1-controls) and has_nel (C09/json-nel) live in JsonString.v,
+   shared with the theorem json_string_layer *)
 Definition leading_blank_multiline (s : string) : bool :=
   contains "010" s && match s with String c _ => N.eqb (b c) 10 || N.eqb (b c) 32 || N.eqb (b c) 9 | EmptyString => false end.
 
@@ -51,7 +31,23 @@ Definition known_class (enc : nat) (s : spec) : nat :=
 (* one written file: the Spec handed to Cache.WriteSpec, the encoding, the generic JSON image of json.Marshal(spec), the Spec
    read back with cdi.ReadSpec (None: error), whether the devices loaded through the cache equal the original ones, the Spec
    read back from the file in the other encoding (json <-> yaml), the known-finding class claimed by the harness *)
-Inductive case09 := Case09 (s : spec) (enc : nat) (image : doc) (back : option spec) (cache_same : bool) (other : option spec) (k : nat).
+Inductive case09 :=
+| Case09 (s : spec) (enc : nat) (image : doc) (back : option spec) (cache_same : bool) (other : option spec) (k : nat)
+(* one string through the JSON text layer alone: the Go string, utf8.ValidString, what json.Marshal wrote between the quotes,
+   what sigs.k8s.io/yaml read back from that literal as a member value (None: error), the known-finding class claimed *)
+| CaseStr (s : string) (valid : bool) (escaped : string) (scanned : option string) (k : nat)
+(* the link between the two: the bytes of a .json file written by Cache.WriteSpec for a Spec that carries s as the value of the
+   annotation example.com/note *)
+| CaseLit (s : string) (file : string).
+
+Fixpoint has_infix (p s : string) : bool :=
+  has_prefix p s || match s with String _ r => has_infix p r | EmptyString => false end.
+(* the member as encoding/json writes it: the key, a colon, the literal of the model *)
+Definition note_member (s : string) : string := """example.com/note"":""" ++ json_escape s ++ """".
+
+Definition str_class (s : string) : nat := if has_c1 s then 1 else if has_nel s then 2 else 0.
+Definition opt_string_eqb (a c : option string) : bool :=
+  match a, c with Some x, Some y => String.eqb x y | None, None => true | _, _ => false end.
 
 Definition corr09 (c : case09) : bool :=
   match c with
@@ -59,6 +55,12 @@ Definition corr09 (c : case09) : bool :=
       doc_eqb image (doc_of_spec s) &&                        (* the encoder model is json.Marshal *)
       match spec_of_doc image with Ok s' => spec_eqb s s' | _ => false end &&   (* the decoder model on the real image *)
       Nat.eqb k (known_class enc s) && spec_ranges s
+  | CaseStr s valid escaped scanned k =>
+      Bool.eqb (valid_utf8 s) valid &&                       (* the hypothesis of json_string_layer is utf8.ValidString *)
+      String.eqb (json_escape s) escaped &&                  (* the escaping model is encoding/json *)
+      opt_string_eqb (yaml_dq_scan escaped) scanned &&       (* the scanner model on the real literal is the real reader *)
+      Nat.eqb k (str_class s)
+  | CaseLit s file => has_infix (note_member s) file       (* the library's JSON writer is encoding/json with HTML escaping *)
   end.
 Definition oracle09 (c : case09) : bool :=
   match c with
@@ -67,6 +69,9 @@ Definition oracle09 (c : case09) : bool :=
       | Some s' => spec_eqb s s' && cache_same && match other with Some o => spec_eqb o s' | None => true end
       | None => false
       end
+  | CaseStr s valid _ scanned _ =>                           (* the property speaks of valid UTF-8 strings *)
+      negb valid || match scanned with Some x => String.eqb x s | None => false end
+  | CaseLit _ _ => true
   end.
 Definition judge09 (cases : list case09) : list nat * list nat :=
   (bad_indices corr09 0 cases, bad_indices oracle09 0 cases).
